@@ -78,8 +78,9 @@ def main():
     # entries contributed by the component builders
     d = os.path.join(ROOT, "manifest_entries")
     if os.path.isdir(d):
+        enabled = open(os.path.join(d, "ENABLED")).read().split()
         for fn in sorted(os.listdir(d)):
-            if fn.endswith(".json"):
+            if fn.endswith(".json") and fn[:-5] in enabled:
                 CHECKS[fn[:-5]] = json.load(open(os.path.join(d, fn)))
     props = [json.loads(l)["id"] for l in open(os.path.join(ROOT, "properties.jsonl"))]
     checks = []
